@@ -233,6 +233,20 @@ func collectLeaves(m *labels.VerifSM, eq, pre *[]string) {
 	}
 }
 
+// hasFold reports whether any node of the tree carries the FoldCase flag (outside the
+// case-sensitive fragment covered by the main theorem).
+func hasFold(r *gsyntax.Regexp) bool {
+	if r.Flags&gsyntax.FoldCase != 0 && (r.Op == gsyntax.OpLiteral || r.Op == gsyntax.OpCharClass || r.Op == gsyntax.OpEmptyMatch) {
+		return true
+	}
+	for _, s := range r.Sub {
+		if hasFold(s) {
+			return true
+		}
+	}
+	return false
+}
+
 func isASCII(s string) bool {
 	for i := 0; i < len(s); i++ {
 		if s[i] >= utf8.RuneSelf {
@@ -840,6 +854,14 @@ func main() {
 			meta.Case(id, desc{Pattern: pat, Strings: g, Fast: fast, Std: stdv, Diverge: div, Path: path, Shape: shapes[gi], Corpus: corpus})
 			meta.Evaluations += len(g)
 			meta.Hit("path:" + path)
+			switch {
+			case !dump.HasRe:
+				meta.Hit("theorem:alternating-literals")
+			case hasFold(parsed):
+				meta.Hit("theorem:outside-cs-fragment(case-insensitive)")
+			default:
+				meta.Hit("theorem:cs-fragment(main theorem applies)")
+			}
 			if shapes[gi] != "normal" {
 				meta.Hit("shape:" + shapes[gi])
 			}
@@ -854,7 +876,7 @@ func main() {
 	for i, c := range corpus {
 		emit(gen.Fork(f.Seed, 1_000_000+i), c.pat, c.strs, c.name)
 	}
-	n := f.Count(260, 4000)
+	n := f.Count(260, 3000)
 	for i := 0; i < n; i++ {
 		r := gen.Fork(f.Seed, i)
 		var pat string
